@@ -273,7 +273,7 @@ def run_shard(sh):
                 run(plain, source, pos, ss, ("unchecked",), (True, False))
         return st
     if sh["part"] == "nosource":
-        for plain in annot.strings(["a", "b", " "], 5)[sh["r"] :: sh["n"]]:
+        for plain in (annot.strings(["a", "b", " "], 5) + [p_ for p_ in annot.strings(["a", ">", " "], 4) if ">" in p_])[sh["r"] :: sh["n"]]:
             n = len(plain)
             sets = list(annot.span_sets(n, 2))
             if sh["k3"] and n <= 4:
